@@ -2,6 +2,7 @@
    stripe index (hash % 25) * 10 < 256 is a separate lemma) and the metric events the policy and
    the cache emit. *)
 From StrettoModel Require Export Base.
+From StrettoModel Require Consts.
 Open Scope N_scope.
 
 Inductive mtype :=
@@ -32,3 +33,29 @@ Definition m_adds (m : metrics) (es : list mevent) : metrics := fold_left m_add 
 
 (* stripe index used by MetricsInner::add *)
 Definition stripe_idx (hash : N) : N := (hash mod 25) * 10.
+
+(* ---- the life-expectancy histogram (src/histogram.rs): bounds 2^1 .. 2^16, seventeen buckets ---- *)
+Record hist := { h_count : Z; h_sum : Z; h_min : Z; h_max : Z; h_buckets : list Z }.
+
+Definition HIST_BOUNDS : nat := N.to_nat Consts.HISTOGRAM_BOUND_SIZE.
+Definition HIST_BUCKETS : nat := S HIST_BOUNDS.
+Definition hist_new : hist :=
+  {| h_count := 0%Z; h_sum := 0%Z; h_min := I64MAX; h_max := 0%Z; h_buckets := repeat 0%Z HIST_BUCKETS |}.
+(* Histogram::clear stores 0 into min as well *)
+Definition hist_clear : hist :=
+  {| h_count := 0%Z; h_sum := 0%Z; h_min := 0%Z; h_max := 0%Z; h_buckets := repeat 0%Z HIST_BUCKETS |}.
+
+(* index of the first bound 2^(i+1) strictly above val; the last bucket otherwise *)
+Fixpoint bucket_from (val : Z) (i : nat) (fuel : nat) : nat :=
+  match fuel with
+  | O => i
+  | S f => if (val <? 2 ^ Z.of_nat (S i))%Z then i else bucket_from val (S i) f
+  end.
+Definition bucket_idx (val : Z) : nat := bucket_from val 0 HIST_BOUNDS.
+
+Definition hist_update (h : hist) (val : Z) : hist :=
+  let i := bucket_idx val in
+  {| h_count := (h_count h + 1)%Z; h_sum := (h_sum h + val)%Z;
+     h_min := if (val <? h_min h)%Z then val else h_min h;
+     h_max := if (h_max h <? val)%Z then val else h_max h;
+     h_buckets := list_set (h_buckets h) i (nth i (h_buckets h) 0%Z + 1)%Z |}.
